@@ -198,7 +198,7 @@ class Interp:
             if fd.get('n') == '' and 'union' in (fd.get('t') or ''):
                 first = (self.prog.classes.get(cls + '::(anonymous)', {}).get('fields') or [{}])[0]
                 rec['#union%s' % fd.get('fd')] = (first.get('initv') or 0) if first.get('hasinit') else 'uninit'
-            elif ct.startswith('std::vector<') or ct.startswith('std::deque<') or ct.startswith('std::list<'):
+            elif ct.startswith(('std::vector<', 'std::deque<', 'std::list<', 'std::queue<')):
                 rec[fd['n']] = []
             elif 'initv_hex' in fd:
                 rec[fd['n']] = int(fd['initv_hex'], 16)
@@ -417,6 +417,9 @@ class Interp:
                 return self.call(g, actual[1:], this=this)
             return self.invoke(f, st, target, actual)
         if fn[0] == 'method':
+            stat = [g for g in self.prog.by_usr.get(fn[1], ()) if g.body is not None and g.d.get('static')]
+            if stat:
+                return self.call(stat[0], list(args)[:len(stat[0].params)])      # a static member function: a plain function
             this = self.record_of(args[0])
             g = self.method_by_usr(fn[1], this, fn[2], len(args) - 1)
             return self.call(g, args[1:], this=this)
@@ -449,7 +452,7 @@ class Interp:
         cls = st.get('ctor') or ''
         args = [self.ev(f, a, env) for a in st.get('args', [])]
         if cls not in self.prog.classes:
-            if cls.startswith(('std::vector<', 'std::deque<', 'std::list<')):
+            if cls.startswith(('std::vector<', 'std::deque<', 'std::list<', 'std::queue<')):
                 out = list(args[0]) if args and isinstance(args[0], list) else []
                 if st.get('move') and args and isinstance(args[0], list):
                     del args[0][:]          # move construction: the source is left empty (what libstdc++ does, and what the code relies on)
@@ -611,7 +614,8 @@ class Interp:
             if r is not NotImplemented:
                 return r
         ckey = '%s::%s' % ((st.get('cls') or '').split('<')[0].split('::')[-1], name)
-        if ckey in self.hooks or name in self.hooks:
+        if ckey in self.hooks or (name in self.hooks and not (self.hooks[name] in _CONTAINER_HOOK_FUNCS and (st.get('cls') or '') in self.prog.classes)):
+            # (a container hook of this module never shadows a method of a class of the repository that happens to have the same name: Cabinet::at, ...)
             self.cur_obj = objv
             return self.hooks[ckey if ckey in self.hooks else name](self, f, st, args)
         cls_ = st.get('cls') or ''
@@ -706,6 +710,13 @@ class Interp:
             return self.call(g, args, this=this)
         if name == 'operator=' and 'obj' in st and cls_ and cls_ not in self.prog.classes and len(args) == 1:
             self.write(f, st, self.lv(f, st['obj'], env), args[0], env)         # a value type of a library: assignment copies the (opaque) value
+            return objv
+        if name == 'operator=' and 'obj' in st and len(args) == 1 and self.record_of(objv) is not None and self.record_of(args[0]) is not None:
+            # an implicitly defined copy / move assignment of a class of the repository: member-wise
+            dst, src = self.record_of(objv), self.record_of(args[0])
+            for k_, v_ in list(src.items()):
+                if not k_.startswith('__'):
+                    dst[k_] = dict(v_) if isinstance(v_, dict) else (list(v_) if isinstance(v_, list) else v_)
             return objv
         if not name and st['k'] == 'CallExpr' and st.get('calleeexpr') is not None:
             # a call through a pointer to function held in a variable or a field
@@ -1108,6 +1119,14 @@ class Interp:
                 if sub is not None and sub['k'] == 'DeclRefExpr' and sub.get('dk') == 'CXXMethod':
                     return ('method', sub.get('usr'), sub.get('n'))
                 loc = self.lv(f, st['ch'][0], env)
+                sct = ((sub or {}).get('ct') or (sub or {}).get('t') or '').replace('struct ', '').replace('const ', '').strip()
+                if loc[0] in ('dict', 'field') and sct and sct not in WIDTH and '*' not in sct and '&' not in sct and '[' not in sct and sct not in self.prog.classes:
+                    # the address of a member that is a structure of a library (ucontext_t, stack_t, ...): an open record made on first use
+                    holder = loc[1] if loc[0] == 'dict' else self.this
+                    key = loc[2] if loc[0] == 'dict' else self.canon(self.this, loc[1])
+                    if not isinstance(holder.get(key), dict) and holder.get(key) in (None, 'uninit', 0):
+                        holder[key] = {'__cls__': sct, '__open__': True}
+                        self._keep.append(holder[key])
                 if loc[0] == 'mem':
                     return loc[1]
                 if loc[0] == 'global' and isinstance(self.globals.get(loc[1]), P):
@@ -1184,7 +1203,7 @@ class Interp:
                 if ctor0:
                     self.run_ctor(f, st, rec, ct, ctor0[0], [])
                 return self.ref(rec)
-            if ct.startswith(('std::vector<', 'std::deque<')):
+            if ct.startswith(('std::vector<', 'std::deque<', 'std::queue<')):
                 return []
             return None
         if k == 'StringLiteral':
@@ -1553,3 +1572,8 @@ def h_stream_str(it, f, st, a):
 
 
 STREAM_HOOKS = {'operator<<': h_stream_out, 'str': h_stream_str}
+
+
+_CONTAINER_HOOK_FUNCS = set()
+for _h in list(VECTOR_HOOKS.values()):
+    _CONTAINER_HOOK_FUNCS.add(_h)
